@@ -1,7 +1,7 @@
 (** C18 - Unknown extension content never alters standard content.
     Statements only; every proof is an [exact] of a lemma proved in Proofs/Xe*.v.
 
-    [extract_all pf64 pf32 d] is everything E57Reader::new extracts from the parsed document [d]
+    [extract_all pf64 pf32 fdiv d] is everything E57Reader::new extracts from the parsed document [d]
     (root, extensions, point clouds, images); [pf64] / [pf32] stand for Rust's float parsers and
     are arbitrary.  The insertion relations are defined in Spec/XeForeign.v:
       fattr_doc       namespaced attributes added to any elements (also inside prototypes)
@@ -19,34 +19,34 @@ From E57 Require Import Base.Prelude Model.Meta Model.MetaFile Model.XmlTree Mod
 
 (** Namespaced attributes anywhere never change what is extracted ([attribute("x")] only sees
     attributes without a namespace). *)
-Theorem C18_foreign_attrs_inert : forall (pf64 pf32 : xstr -> option N) (d d' : xdoc),
-  fattr_doc d d' -> extract_all pf64 pf32 d' = extract_all pf64 pf32 d.
+Theorem C18_foreign_attrs_inert : forall (pf64 pf32 : xstr -> option N) (fdiv : N -> Z -> N) (d d' : xdoc),
+  fattr_doc d d' -> extract_all pf64 pf32 fdiv d' = extract_all pf64 pf32 fdiv d.
 Proof. exact extract_all_fattr. Qed.
 Print Assumptions C18_foreign_attrs_inert.
 
 (** Inserted elements (whatever their namespace) none of whose elements has a looked-up local
     name, not placed in front of a leading text node, and namespaced attributes: nothing changes. *)
-Theorem C18_foreign_elems_partial : forall (pf64 pf32 : xstr -> option N) (d d' : xdoc),
-  ins_doc d d' -> extract_all pf64 pf32 d' = extract_all pf64 pf32 d.
+Theorem C18_foreign_elems_partial : forall (pf64 pf32 : xstr -> option N) (fdiv : N -> Z -> N) (d d' : xdoc),
+  ins_doc d d' -> extract_all pf64 pf32 fdiv d' = extract_all pf64 pf32 fdiv d.
 Proof. exact extract_all_ins. Qed.
 Print Assumptions C18_foreign_elems_partial.
 
 (** ... in particular for foreign elements *)
-Theorem C18_foreign_inert_partial : forall (pf64 pf32 : xstr -> option N) (d d' : xdoc),
-  fins_inert_doc d d' -> extract_all pf64 pf32 d' = extract_all pf64 pf32 d.
+Theorem C18_foreign_inert_partial : forall (pf64 pf32 : xstr -> option N) (fdiv : N -> Z -> N) (d d' : xdoc),
+  fins_inert_doc d d' -> extract_all pf64 pf32 fdiv d' = extract_all pf64 pf32 fdiv d.
 Proof. exact extract_all_fins_inert. Qed.
 Print Assumptions C18_foreign_inert_partial.
 
 (** [<ext:guid>] in front of [<guid>] is taken as the file GUID ([has_tag_name] ignores the namespace). *)
 Theorem C18_refuted_same_local_name :
-  exists d d', fins_doc d d' /\ forall pf64 pf32, extract_all pf64 pf32 d' <> extract_all pf64 pf32 d.
+  exists d d', fins_doc d d' /\ forall pf64 pf32 fdiv, extract_all pf64 pf32 fdiv d' <> extract_all pf64 pf32 fdiv d.
 Proof. exact C18_refuted_same_local_name_proof. Qed.
 Print Assumptions C18_refuted_same_local_name.
 
 Theorem C18_refuted_same_local_name_values :
   fins_doc d_base d_same_name /\
-  forall pf64 pf32, exists m m',
-    extract_all pf64 pf32 d_base = Ok m /\ extract_all pf64 pf32 d_same_name = Ok m' /\
+  forall pf64 pf32 fdiv, exists m m',
+    extract_all pf64 pf32 fdiv d_base = Ok m /\ extract_all pf64 pf32 fdiv d_same_name = Ok m' /\
     rt_guid (fm_root m) = [114; 101; 97; 108] /\ rt_guid (fm_root m') = [102; 97; 107; 101].
 Proof. exact same_local_name_witness. Qed.
 Print Assumptions C18_refuted_same_local_name_values.
@@ -54,15 +54,15 @@ Print Assumptions C18_refuted_same_local_name_values.
 (** A foreign element (or a comment) as first child of a leaf element: its text reads as absent
     ([Node::text()] is the first child only if that child is text); a string becomes empty, ... *)
 Theorem C18_refuted_before_text :
-  exists d d', fins_doc d d' /\ forall pf64 pf32, extract_all pf64 pf32 d' <> extract_all pf64 pf32 d.
+  exists d d', fins_doc d d' /\ forall pf64 pf32 fdiv, extract_all pf64 pf32 fdiv d' <> extract_all pf64 pf32 fdiv d.
 Proof. exact C18_refuted_before_text_proof. Qed.
 Print Assumptions C18_refuted_before_text.
 
 Theorem C18_refuted_before_text_values :
   fins_doc d_base d_before_text /\
-  forall pf64 pf32, exists m m' m'',
-    extract_all pf64 pf32 d_base = Ok m /\ extract_all pf64 pf32 d_before_text = Ok m' /\
-    extract_all pf64 pf32 d_comment_before_text = Ok m'' /\
+  forall pf64 pf32 fdiv, exists m m' m'',
+    extract_all pf64 pf32 fdiv d_base = Ok m /\ extract_all pf64 pf32 fdiv d_before_text = Ok m' /\
+    extract_all pf64 pf32 fdiv d_comment_before_text = Ok m'' /\
     rt_guid (fm_root m) = [114; 101; 97; 108] /\ rt_guid (fm_root m') = [] /\ rt_guid (fm_root m'') = [].
 Proof. exact before_text_witness. Qed.
 Print Assumptions C18_refuted_before_text_values.
@@ -71,9 +71,9 @@ Print Assumptions C18_refuted_before_text_values.
     rejected, the same file with a foreign element in front of that text is accepted. *)
 Theorem C18_refuted_before_text_number :
   fins_doc d_bad_number d_bad_number_hidden /\
-  forall pf64 pf32,
-    extract_all pf64 pf32 d_bad_number = Err EInvalid /\
-    is_ok (extract_all pf64 pf32 d_bad_number_hidden) = true.
+  forall pf64 pf32 fdiv,
+    extract_all pf64 pf32 fdiv d_bad_number = Err EInvalid /\
+    is_ok (extract_all pf64 pf32 fdiv d_bad_number_hidden) = true.
 Proof. exact before_text_number_witness. Qed.
 Print Assumptions C18_refuted_before_text_number.
 
@@ -81,34 +81,35 @@ Print Assumptions C18_refuted_before_text_number.
     a foreign subtree earlier in document order: a point cloud made only of foreign elements is
     reported; a limit value is taken from a nested foreign element. *)
 Theorem C18_refuted_descendant_lookup :
-  exists d d', fins_doc d d' /\ forall pf64 pf32, extract_all pf64 pf32 d' <> extract_all pf64 pf32 d.
+  exists d d', fins_doc d d' /\ forall pf64 pf32 fdiv, extract_all pf64 pf32 fdiv d' <> extract_all pf64 pf32 fdiv d.
 Proof. exact C18_refuted_descendant_lookup_proof. Qed.
 Print Assumptions C18_refuted_descendant_lookup.
 
 Theorem C18_refuted_descendant_lookup_values :
   fins_doc d_data3d d_data3d_captured /\
-  forall pf64 pf32, exists m m',
-    extract_all pf64 pf32 d_data3d = Ok m /\ extract_all pf64 pf32 d_data3d_captured = Ok m' /\
+  forall pf64 pf32 fdiv, exists m m',
+    extract_all pf64 pf32 fdiv d_data3d = Ok m /\ extract_all pf64 pf32 fdiv d_data3d_captured = Ok m' /\
     length (fm_pointclouds m) = 0%nat /\ length (fm_pointclouds m') = 1%nat.
 Proof. exact descendant_lookup_witness. Qed.
 Print Assumptions C18_refuted_descendant_lookup_values.
 
 Theorem C18_refuted_descendant_lookup_limits :
   fins_doc d_limits d_limits_captured /\
-  forall pf64 pf32, exists m m',
-    extract_all pf64 pf32 d_limits = Ok m /\ extract_all pf64 pf32 d_limits_captured = Ok m' /\
+  forall pf64 pf32 fdiv, exists m m',
+    extract_all pf64 pf32 fdiv d_limits = Ok m /\ extract_all pf64 pf32 fdiv d_limits_captured = Ok m' /\
     first_intensity_min m = Some (LInteger 1) /\ first_intensity_min m' = Some (LInteger 7).
 Proof. exact descendant_lookup_limits_witness. Qed.
 Print Assumptions C18_refuted_descendant_lookup_limits.
 
-(** Prototype records in an extension namespace with a prefix in scope and a non-standard local
-    name are reported as Unknown{prefix, name} with their data type, and the other records of
-    the prototype are extracted as without them, in the same order. *)
+(** Prototype records in an extension namespace with a prefix in scope - foreign namespace (any
+    local name) or non-standard local name - are reported as Unknown{prefix, name} with their
+    data type, and the other records of the prototype are extracted as without them, in the same
+    order. *)
 Theorem C18_extension_records :
   forall (pf64 pf32 : xstr -> option N) nm a sc ch1 ch2 r1 r2 uri p local attrs esc ech dt,
   let e := XElem (mkXName (Some uri) local) attrs esc ech in
   lookup_prefix uri e = Some p ->
-  std_record_name local = false ->
+  foreign_uri uri = true \/ std_record_name local = false ->
   data_type_from_node pf64 pf32 e = Ok dt ->
   map_res (record_from_node pf64 pf32) (filter is_element ch1) = Ok r1 ->
   map_res (record_from_node pf64 pf32) (filter is_element ch2) = Ok r2 ->
@@ -118,15 +119,18 @@ Theorem C18_extension_records :
 Proof. exact extension_records. Qed.
 Print Assumptions C18_extension_records.
 
-(** An extension record whose LOCAL name is a standard record name is reported as the standard
-    record: [<ext:cartesianX>] comes back as CartesianX, not as Unknown{ext, cartesianX}. *)
-Theorem C18_refuted_extension_std_name :
-  forall pf64 pf32,
+(** An extension record whose LOCAL name is a standard record name keeps its namespace:
+    [<ext:cartesianX>] comes back as Unknown{ext, cartesianX}, next to the standard cartesianX. *)
+Theorem C18_extension_std_name_kept :
+  forall pf64 pf32 fdiv,
     std_record_name [99; 97; 114; 116; 101; 115; 105; 97; 110; 88] = true /\
     lookup_prefix EXT_NS (rec_ext [99; 97; 114; 116; 101; 115; 105; 97; 110; 88]) = Some [101; 120; 116] /\
     record_from_node pf64 pf32 (rec_ext [99; 97; 114; 116; 101; 115; 105; 97; 110; 88]) =
-      Ok (mkRecord CartesianX (DInteger (-5) 5)) /\
-    first_prototype (extract_all pf64 pf32 (doc_with_proto [rec_ext [99; 97; 114; 116; 101; 115; 105; 97; 110; 88]])) =
-      Some [mkRecord CartesianX (DInteger (-5) 5)].
-Proof. exact extension_std_name_refuted. Qed.
-Print Assumptions C18_refuted_extension_std_name.
+      Ok (mkRecord (Unknown [101; 120; 116] [99; 97; 114; 116; 101; 115; 105; 97; 110; 88]) (DInteger (-5) 5)) /\
+    first_prototype (extract_all pf64 pf32 fdiv
+                       (doc_with_proto [rec_ext [99; 97; 114; 116; 101; 115; 105; 97; 110; 88];
+                                        rec_std [99; 97; 114; 116; 101; 115; 105; 97; 110; 88]])) =
+      Some [mkRecord (Unknown [101; 120; 116] [99; 97; 114; 116; 101; 115; 105; 97; 110; 88]) (DInteger (-5) 5);
+            mkRecord CartesianX (DInteger 0 255)].
+Proof. exact extension_std_name_kept. Qed.
+Print Assumptions C18_extension_std_name_kept.
